@@ -110,6 +110,14 @@ Definition ofinally (blk : st -> list label -> list stmt -> st * list label * or
       end
   end.
 
+(* the body of try / catch / finally is a block STATEMENT: entering it polls *)
+Definition opolled (blk : st -> list label -> list stmt -> st * list label * ores)
+           (s0 : st) (L : list label) (l : list stmt) : st * list label * ores :=
+  match poll s0 with
+  | (s1, Some x) => (s1, L, OExn x)
+  | (s1, None) => blk s1 L l
+  end.
+
 Fixpoint exec_o (fuel : nat) (s0 : st) (L : list label) (s : stmt) {struct fuel}
   : st * list label * ores :=
   match fuel with
@@ -151,7 +159,7 @@ Fixpoint exec_o (fuel : nat) (s0 : st) (L : list label) (s : stmt) {struct fuel}
         end
     | STry b c f =>
         (* try/catch/finally bodies are block statements *)
-        ofinally (oblock (exec_o fuel)) (ocatch (oblock (exec_o fuel)) (oblock (exec_o fuel) s0 L b) c) f
+        ofinally (opolled (oblock (exec_o fuel))) (ocatch (opolled (oblock (exec_o fuel))) (opolled (oblock (exec_o fuel)) s0 L b) c) f
     end
     end
   end.
@@ -209,6 +217,12 @@ Definition sfinally (blk : st -> list stmt -> st * sres) (r2 : st * sres) (f : o
       end
   end.
 
+Definition spolled (blk : st -> list stmt -> st * sres) (s0 : st) (l : list stmt) : st * sres :=
+  match poll s0 with
+  | (s1, Some x) => (s1, SDone (CThrow x))
+  | (s1, None) => blk s1 l
+  end.
+
 Fixpoint exec_s (fuel : nat) (s0 : st) (LS : list label) (s : stmt) {struct fuel} : st * sres :=
   match fuel with
   | O => (s0, SFuel)
@@ -249,7 +263,7 @@ Fixpoint exec_s (fuel : nat) (s0 : st) (LS : list label) (s : stmt) {struct fuel
         | (s1, inr x) => (s1, SDone (CThrow x))
         end
     | STry b c f =>
-        sfinally (slist (exec_s fuel)) (scatch (slist (exec_s fuel)) (slist (exec_s fuel) s0 b) c) f
+        sfinally (spolled (slist (exec_s fuel))) (scatch (spolled (slist (exec_s fuel))) (spolled (slist (exec_s fuel)) s0 b) c) f
     end
     end
   end.
@@ -259,3 +273,4 @@ Arguments exec_o {st val expr}. Arguments exec_s {st val expr}.
 Arguments olist {st val expr}. Arguments owhile {st val expr}. Arguments oblock {st val expr}.
 Arguments slist {st val expr}. Arguments ocatch {st val expr}. Arguments ofinally {st val expr}. Arguments scatch {st val expr}. Arguments sfinally {st val expr}. Arguments swhile {st val expr}.
 Arguments is_res {val}.
+Arguments opolled {st val expr}. Arguments spolled {st val expr}.
